@@ -239,16 +239,18 @@ pub(crate) fn run(seed: u64, n: u64, out: &mut Out) {
         let last_n = *rng.pick(&[1u64, 2, 3, 5, 10, 100]);
         protocol.set_last_n_blocks(last_n);
         let with_prove_state = rng.chance(1, 2);
-        let start_number = rng.range(0, 5000);
+        // every fourth case: the request rebuilt from the genesis block after a long fork (build_prove_request_content_from_genesis)
+        let from_genesis = rng.chance(1, 4);
+        let start_number = if from_genesis { 0 } else { rng.range(0, 5000) };
         let gap = match rng.below(6) { 0 => 0, 1 => 1, 2 => last_n, 3 => last_n + 1, 4 => rng.range(1, last_n * 2 + 1), _ => rng.range(1, 50_000) };
         let last_number = if rng.chance(1, 12) { start_number.saturating_sub(rng.range(0, 3)) } else { start_number + gap };
-        let start_td = rng.u256_bits(100).saturating_add(&U256::from(2u64));
+        let start_td = if from_genesis { U256::zero() } else { rng.u256_bits(100).saturating_add(&U256::from(2u64)) };
         let lb = *rng.pick(&[4u32, 30, 100]);
-        let last_td = match rng.below(8) { 0 => start_td.clone(), 1 => &start_td - 1u32, _ => &start_td + rng.u256_bits(lb).saturating_add(&U256::from(gap.max(1))) };
+        let last_td = match rng.below(8) { 0 => start_td.clone(), 1 if !from_genesis => &start_td - 1u32, _ => &start_td + rng.u256_bits(lb).saturating_add(&U256::from(gap.max(1))) };
         let start_vh = fake_header(start_number, &start_td, 1000 + i);
         let last_vh = fake_header(last_number, &last_td, 2000 + i);
         // stored last-N headers: a window ending at start_number - 1 .. with arbitrary hashes
-        let stored_len = rng.range(0, last_n.min(12));
+        let stored_len = if from_genesis { 0 } else { rng.range(0, last_n.min(12)) };
         let mut stored: Vec<HeaderView> = Vec::new();
         let first = start_number.saturating_sub(stored_len);
         for num in first..start_number {
@@ -269,7 +271,8 @@ pub(crate) fn run(seed: u64, n: u64, out: &mut Out) {
         };
         let peer_state = peers.get_state(&peer).unwrap();
         let last_td_real = last_vh.total_difficulty();
-        let r = catch(|| protocol.build_prove_request_content(&peer_state, &last_vh));
+        let (start_hash, st_num, st_td) = if from_genesis { (storage.get_genesis_block().calc_header_hash(), 0u64, U256::zero()) } else { (start_hash, st_num, st_td) };
+        let r = if from_genesis { catch(|| protocol.build_prove_request_content_from_genesis(&last_vh)) } else { catch(|| protocol.build_prove_request_content(&peer_state, &last_vh)) };
         let stored_coq: Vec<String> = stored.iter().map(|h| format!("({}, {})", h.number(), hash_n(&h.hash()))).collect();
         let blocks_count = last_number.saturating_sub(st_num).max(1);
         let (_, m, num_b) = float_oracles(last_n, blocks_count);
@@ -315,10 +318,10 @@ pub(crate) fn run(seed: u64, n: u64, out: &mut Out) {
                 (Val::l(vec![Val::n(0), Val::l(vec![Val::l(vec![Val::n(hash_n(&content.start_hash())), Val::n(rq_start), Val::n(format!("{:#x}", boundary)), Val::l(ds_model.iter().map(|d| Val::n(format!("{:#x}", d))).collect())])])]), nums, oracle)
             }
         };
-        out.case(&format!("request-{}", i), &["request", if with_prove_state { "from-prove-state" } else { "from-storage" }],
+        out.case(&format!("request-{}", i), &["request", if from_genesis { "from-genesis" } else if with_prove_state { "from-prove-state" } else { "from-storage" }],
             &format!("(run_build_request {} {} {:#x} {} {} {:#x} {} {} {} {})", last_n, last_number, last_td_real, hash_n(&start_hash), st_num, st_td, coq_list(&stored_coq), m, num_b, coq_list(&nums)),
             &v, oracle,
             &format!("build_prove_request_content(last_n={}, start=#{} td {:#x} ({}), last=#{} td {:#x}, stored last-N {} headers from #{})",
-                last_n, st_num, st_td, if with_prove_state { "prove state" } else { "storage" }, last_number, last_td_real, stored.len(), first));
+                last_n, st_num, st_td, if from_genesis { "genesis: build_prove_request_content_from_genesis" } else if with_prove_state { "prove state" } else { "storage" }, last_number, last_td_real, stored.len(), first));
     }
 }
